@@ -3,6 +3,8 @@ package main
 import (
 	"fmt"
 	"math/bits"
+	"slices"
+	"sort"
 	"strings"
 
 	"github.com/bronlabs/bron-crypto/pkg/base/algebra"
@@ -15,7 +17,11 @@ func init() { register("C10", runC10) }
 
 // ID assignments: dense, unsorted, sparse, large (top bit set, 2^64-1), and values whose numeric
 // order differs from the lexicographic order of their little-endian encodings (1 vs 256 vs 65536).
-func c10IDSets(r *Rng, thorough bool) [][]sharing.ID {
+// Quorum sizes: 2-6 with every sub-quorum (fixed sets + random ones), and a spread of larger sizes
+// (quick: 7,8,9,10,12,16,17,20 + two more per seed; thorough: every size 7..20 and a spread up to
+// 40) in rotating ID styles, because buffer handling in the setup depends on the accumulated length
+// 35+136*n of the common seed and 8+8*k of the sub-quorum frame (allocation size classes).
+func c10IDSets(r *Rng, thorough bool, seed int64) [][]sharing.ID {
 	const top = uint64(1) << 63
 	sets := [][]sharing.ID{
 		{1, 2},
@@ -58,7 +64,138 @@ func c10IDSets(r *Rng, thorough bool) [][]sharing.ID {
 	for i := 0; i < extra; i++ {
 		sets = append(sets, rnd(2+(i+3)%5))
 	}
+	// larger quorums
+	sizes := []int{7, 8, 9, 10, 12, 16, 17, 20}
+	if thorough {
+		sizes = []int{7, 8, 9, 10, 11, 12, 13, 14, 15, 16, 17, 18, 19, 20, 21, 24, 25, 28, 31, 32, 33, 36, 40}
+	} else {
+		rest := []int{11, 13, 14, 15, 18, 19}
+		a := r.IntN(len(rest))
+		b := (a + 1 + r.IntN(len(rest)-1)) % len(rest)
+		sizes = append(sizes, rest[a], rest[b])
+	}
+	for k, n := range sizes {
+		sets = append(sets, c10BigIDs(r, n, k+int(seed)))
+	}
 	return sets
+}
+
+// c10BigIDs: n distinct IDs in one of seven styles.
+func c10BigIDs(r *Rng, n int, style int) []sharing.ID {
+	out := make([]sharing.ID, 0, n)
+	seen := map[sharing.ID]bool{}
+	add := func(id sharing.ID) {
+		if id != 0 && !seen[id] && len(out) < n {
+			seen[id] = true
+			out = append(out, id)
+		}
+	}
+	switch ((style % 7) + 7) % 7 {
+	case 0: // ordinal 1..n, in order
+		for i := 1; i <= n; i++ {
+			add(sharing.ID(i))
+		}
+	case 1: // ordinal, shuffled (decimal/hex string order differs from numeric order: "10" < "9")
+		for i := 1; i <= n; i++ {
+			add(sharing.ID(i))
+		}
+	case 2: // sparse
+		for len(out) < n {
+			add(sharing.ID(1 + r.IntN(70000)))
+		}
+	case 3: // 64-bit random
+		for len(out) < n {
+			add(sharing.ID(r.Uint64()))
+		}
+	case 4: // powers of two and their neighbours (little-endian byte order differs from numeric order)
+		for len(out) < n {
+			p := uint64(1) << uint(r.IntN(64))
+			add(sharing.ID(p + uint64(r.IntN(3)) - 1))
+		}
+	case 5: // top of the range, descending
+		for i := 0; len(out) < n; i++ {
+			add(^sharing.ID(0) - sharing.ID(i*i))
+		}
+	default: // mixture
+		for len(out) < n {
+			switch r.IntN(4) {
+			case 0:
+				add(sharing.ID(1 + r.IntN(2*n)))
+			case 1:
+				add(sharing.ID(255 + r.IntN(3) + 256*r.IntN(3)))
+			case 2:
+				add(sharing.ID(uint64(1)<<63 + uint64(r.IntN(n))))
+			default:
+				add(sharing.ID(r.Uint64()))
+			}
+		}
+	}
+	if s := ((style % 7) + 7) % 7; s != 0 && s != 5 {
+		r.Shuffle(len(out), func(i, j int) { out[i], out[j] = out[j], out[i] })
+	}
+	return out
+}
+
+// lengths around allocation size-class / sponge-rate boundaries
+var c10Lens = []int{16, 17, 23, 24, 25, 31, 32, 33, 40, 47, 48, 49, 63, 64, 65, 79, 80, 81, 95, 96, 97, 103, 104, 105,
+	111, 112, 113, 127, 128, 129, 135, 136, 137, 143, 144, 145, 167, 168, 169, 191, 192, 193, 255, 256, 257, 271, 272, 273, 300}
+
+func c10Len(r *Rng, min int) int {
+	for {
+		var l int
+		if r.IntN(4) == 0 {
+			l = 1 + r.IntN(320)
+		} else {
+			l = c10Lens[r.IntN(len(c10Lens))]
+		}
+		if l >= min {
+			return l
+		}
+	}
+}
+
+func c10Label(r *Rng, n int) []byte {
+	const alphabet = "ABCDEFGHIJKLMNOPQRSTUVWXYZabcdefghijklmnopqrstuvwxyz0123456789-_"
+	out := make([]byte, n)
+	for i := range out {
+		out[i] = alphabet[r.IntN(len(alphabet))]
+	}
+	return out
+}
+
+// c10Params: what is read from a context (see c10CtxOut).  Output lengths stay >= 16 bytes so that
+// "different pairs / sub-quorums / sessions give different bytes" is never a coincidence.
+type c10Params struct {
+	extLabel         []byte
+	extLen, seedLen  int
+	seedSplit        int    // the seed bytes are read in two calls: seedSplit, then the rest
+	appLabel, appMsg []byte // appended to (a clone of) the transcript before extracting; nil label: nothing
+}
+
+var c10DefaultParams = c10Params{extLabel: []byte("C10-extract"), extLen: 32, seedLen: 32, seedSplit: 32}
+
+func c10RandParams(r *Rng) c10Params {
+	labLens := []int{1, 7, 8, 9, 15, 16, 17, 31, 32, 33, 47, 48, 49, 63, 64, 65, 95, 96, 97, 127, 128, 129, 255, 256, 257}
+	p := c10Params{
+		extLabel: c10Label(r, labLens[r.IntN(len(labLens))]),
+		extLen:   c10Len(r, 16),
+		seedLen:  c10Len(r, 16),
+	}
+	p.seedSplit = r.IntN(p.seedLen + 1)
+	if r.IntN(3) != 0 {
+		p.appLabel = c10Label(r, labLens[r.IntN(len(labLens))])
+		p.appMsg = make([]byte, []int{0, 1, 8, 16, 31, 32, 33, 64, 96, 128, 136, 137, 256, 300}[r.IntN(14)])
+		_, _ = r.Read(p.appMsg)
+	}
+	return p
+}
+
+func (p c10Params) String() string {
+	lab, msg := "-", "-"
+	if p.appLabel != nil {
+		lab, msg = hexBytes(p.appLabel), hexBytes(p.appMsg)
+	}
+	return fmt.Sprintf("%s;%d;%d;%s;%s", hexBytes(p.extLabel), p.extLen, p.seedLen, lab, msg)
 }
 
 func c10IDs(ids []sharing.ID, sep string) string {
@@ -69,20 +206,71 @@ func c10IDs(ids []sharing.ID, sep string) string {
 	return strings.Join(out, sep)
 }
 
-// all sub-quorums (size >= 2) of the sorted quorum, by increasing bitmask
-func c10SubQuorums(sorted []sharing.ID) [][]sharing.ID {
+// Sub-quorums (size >= 2) of the sorted quorum.  Up to 6 parties: all of them, by increasing bitmask.
+// Larger quorums: for EVERY size k = 2..n-1 one random k-subset, plus the first two, the last two,
+// {first,last}, and the n-1 subsets dropping the first, the last and a random party (so that every
+// party is a member of several sub-quorums and every frame length 8+8k occurs).
+func c10SubQuorums(r *Rng, sorted []sharing.ID) [][]sharing.ID {
 	var out [][]sharing.ID
-	for mask := 1; mask < 1<<len(sorted); mask++ {
-		if bits.OnesCount(uint(mask)) < 2 {
-			continue
+	n := len(sorted)
+	if n <= 6 {
+		for mask := 1; mask < 1<<n; mask++ {
+			if bits.OnesCount(uint(mask)) < 2 {
+				continue
+			}
+			var q []sharing.ID
+			for i, id := range sorted {
+				if mask>>i&1 == 1 {
+					q = append(q, id)
+				}
+			}
+			out = append(out, q)
 		}
-		var q []sharing.ID
-		for i, id := range sorted {
-			if mask>>i&1 == 1 {
-				q = append(q, id)
+		return out
+	}
+	seen := map[string]bool{}
+	add := func(idx []int) {
+		sort.Ints(idx)
+		q := make([]sharing.ID, len(idx))
+		for i, k := range idx {
+			q[i] = sorted[k]
+		}
+		key := c10IDs(q, ".")
+		if !seen[key] {
+			seen[key] = true
+			out = append(out, q)
+		}
+	}
+	without := func(drop int) []int {
+		var idx []int
+		for i := 0; i < n; i++ {
+			if i != drop {
+				idx = append(idx, i)
 			}
 		}
-		out = append(out, q)
+		return idx
+	}
+	add([]int{0, 1})
+	add([]int{n - 2, n - 1})
+	add([]int{0, n - 1})
+	for k := 2; k < n; k++ {
+		add(r.Perm(n)[:k])
+	}
+	add(without(0))
+	add(without(n - 1))
+	add(without(1 + r.IntN(n-2)))
+	// neighbours: sub-quorums of equal size that differ in exactly one member (the largest, the
+	// smallest, a random one) must still be separated; sizes n/2 and max(n-3, 2)
+	for _, k := range []int{n / 2, max(n-3, 2)} {
+		base := r.Perm(n)
+		in, rest := slices.Clone(base[:k]), base[k:]
+		sort.Ints(in)
+		add(slices.Clone(in))
+		for _, pos := range []int{k - 1, 0, r.IntN(k)} {
+			v := slices.Clone(in)
+			v[pos] = rest[r.IntN(len(rest))]
+			add(v)
+		}
 	}
 	return out
 }
@@ -94,10 +282,11 @@ type c10Sub struct {
 
 func runC10(c *Ctx) {
 	r := NewRng(c.Seed, 1000)
-	sets := c10IDSets(r, c.Thorough())
+	sets := c10IDSets(r, c.Thorough(), c.Seed)
 	var xs []string
 	for k, ids := range sets {
 		stream := uint64(10_000 + 100*k)
+		big := len(ids) > 6
 		s, err := c10Run(ids, c.Seed, stream, nil)
 		if err != nil {
 			c.Violation(fmt.Sprintf("NewParticipant failed ids=%s", c10IDs(ids, ",")))
@@ -116,15 +305,23 @@ func runC10(c *Ctx) {
 			c.Violation("harness: rerun with equal PRNG streams produced different messages ids=" + c10IDs(ids, ","))
 		}
 
+		// what is read from the contexts: the first sessions with the fixed label / 32 bytes, the others
+		// with label, extraction, seed-read and appended-message lengths around size-class boundaries
+		prm := c10DefaultParams
+		if k >= 4 {
+			prm = c10RandParams(r)
+		}
+		ps := prm.String()
+
 		before := make([]string, len(s.sorted))
 		for i, id := range s.sorted {
-			before[i] = safely(func() string { return c10CtxOut(s.ctxs[id]) })
+			before[i] = safely(func() string { return c10CtxOut(s.ctxs[id], prm) })
 		}
 
-		// sub-contexts for every sub-quorum, by every member
+		// sub-contexts for every (sampled) sub-quorum, by every member
 		var subs []c10Sub
 		subOK := true
-		for _, q := range c10SubQuorums(s.sorted) {
+		for _, q := range c10SubQuorums(r, s.sorted) {
 			sub := c10Sub{q: q}
 			for _, id := range q {
 				var sc *session.Context
@@ -155,30 +352,48 @@ func runC10(c *Ctx) {
 		for i, sub := range subs {
 			parts := []string{c10IDs(sub.q, ".")}
 			for _, sc := range sub.ctxs {
-				parts = append(parts, safely(func() string { return c10CtxOut(sc) }))
+				parts = append(parts, safely(func() string { return c10CtxOut(sc, prm) }))
 			}
 			entries[i] = strings.Join(parts, "|")
 		}
-		// nested: a sub-context of a sub-context (largest proper sub-quorum, then its first two members)
+		// nested: sub-contexts of sub-contexts (largest proper sub-quorum, [a random half of it,] then
+		// two of its members); every member of the innermost quorum walks the whole chain
 		if len(s.sorted) >= 3 {
-			outer := s.sorted[1:]
-			inner := outer[:2]
-			parts := []string{c10IDs(outer, ".") + ">" + c10IDs(inner, ".")}
-			for _, id := range inner {
+			chain := [][]sharing.ID{s.sorted[1:]}
+			if big {
+				outer := chain[0]
+				idx := r.Perm(len(outer))[:(len(outer)+1)/2]
+				sort.Ints(idx)
+				mid := make([]sharing.ID, len(idx))
+				for i, j := range idx {
+					mid[i] = outer[j]
+				}
+				chain = append(chain, mid)
+				a := r.IntN(len(mid) - 1)
+				chain = append(chain, []sharing.ID{mid[a], mid[a+1+r.IntN(len(mid)-1-a)]})
+			} else {
+				chain = append(chain, chain[0][:2])
+			}
+			keys := make([]string, len(chain))
+			for i, q := range chain {
+				keys[i] = c10IDs(q, ".")
+			}
+			parts := []string{strings.Join(keys, ">")}
+			for _, id := range chain[len(chain)-1] {
 				parts = append(parts, safely(func() string {
-					a, err := s.ctxs[id].SubContext(c10Quorum(outer))
-					if err != nil {
-						return "err"
+					cur := s.ctxs[id]
+					for _, q := range chain {
+						next, err := cur.SubContext(c10Quorum(q))
+						if err != nil {
+							return "err"
+						}
+						cur = next
 					}
-					b, err := a.SubContext(c10Quorum(inner))
-					if err != nil {
-						return "err"
-					}
-					return c10CtxOut(b)
+					return c10CtxOut(cur, prm)
 				}))
 			}
 			entries = append(entries, strings.Join(parts, "|"))
-			c.Count("subquorum.nested")
+			c.Count(fmt.Sprintf("subquorum.nested%d", len(chain)))
 		}
 
 		// zero shares in scalar fields and groups, for the full quorum and every sub-quorum
@@ -186,26 +401,57 @@ func runC10(c *Ctx) {
 		c10Przs(c, "F"+hexNat(fieldOrder(fK256)), all, fK256, scalarHex)
 		c10Przs(c, "F"+hexNat(fieldOrder(fEd25519)), all, fEd25519, scalarHex)
 		c10Przs(c, "F"+hexNat(fieldOrder(fBLS)), all, fBLS, scalarHex)
-		c10Przs(c, "k256", all, cK256, pointStr)
-		c10Przs(c, "ed25519", all, cEd25519, pointStr)
-		c10Przs(c, "bls12381g1", all, cBLSG1, pointStr)
+		// (curve points are long: above 12 parties the curve groups take the full quorum, the smallest,
+		// the largest and three random sub-quorums; the scalar fields take all of them)
+		some := all
+		if len(ids) > 12 {
+			some = []c10Sub{all[0], all[1], all[len(all)-1]}
+			for _, j := range r.Perm(len(all) - 3)[:3] {
+				some = append(some, all[2+j])
+			}
+			for _, sub := range all[1:] {
+				if len(sub.q) == len(ids)-1 {
+					some = append(some, sub)
+					break
+				}
+			}
+		}
+		c10Przs(c, "k256", some, cK256, pointStr)
+		c10Przs(c, "ed25519", some, cEd25519, pointStr)
+		c10Przs(c, "bls12381g1", some, cBLSG1, pointStr)
 
 		// the parent contexts are unchanged by everything derived from them
 		after := make([]string, len(s.sorted))
 		for i, id := range s.sorted {
-			after[i] = safely(func() string { return c10CtxOut(s.ctxs[id]) })
+			after[i] = safely(func() string { return c10CtxOut(s.ctxs[id], prm) })
 			if after[i] != before[i] {
 				c.Violation(fmt.Sprintf("context of %x changed by SubContext/Seeds/SampleZeroShare ids=%s", uint64(id), c10IDs(ids, ",")))
 			}
 		}
-		c.Emit("setup "+desc, strings.Join(after, "|"))
-		c.Emit("subctx "+desc+" "+strings.Join(after, "|"), joinComma(entries))
+		c.Emit("setup "+desc+" "+ps, strings.Join(after, "|"))
+		c.Emit("subctx "+desc+" "+ps+" "+strings.Join(after, "|"), joinComma(entries))
 		xs = append(xs, strings.Join(after, "|"))
+		// every third quorum runs a second session with other randomness: "differs from the seeds of
+		// any other session" for the SAME parties (compared on the xsession line)
+		if k%3 == 0 {
+			if tw, err := c10Run(ids, c.Seed, stream+50, nil); err == nil && len(tw.ctxs) == len(ids) {
+				outs := make([]string, len(tw.sorted))
+				for i, id := range tw.sorted {
+					outs[i] = safely(func() string { return c10CtxOut(tw.ctxs[id], prm) })
+				}
+				xs = append(xs, strings.Join(outs, "|"))
+				c.Count("session.twin")
+			} else {
+				c.Violation("honest session setup (second run) failed ids=" + c10IDs(ids, ","))
+			}
+		}
 
 		c10Faults(c, r, s, desc, stream)
 	}
 	// distinctness across sessions
 	c.Emit(fmt.Sprintf("xsession %d", len(xs)), joinComma(xs))
+
+	c10NewContexts(c, NewRng(c.Seed, 1001))
 }
 
 func c10Ordered(s *c10Session) []*session.Context {
@@ -218,7 +464,8 @@ func c10Ordered(s *c10Session) []*session.Context {
 
 // c10Przs emits, for one group and every (sub)quorum, each member's zero share together with the
 // per-peer elements v(i,j) = g.Random(seed_i[j]) it is built from:
-//   przs <group> <ids> <sid> => q.q.q|id;share;peer=v&peer=v|…,…
+//
+//	przs <group> <ids> <sid> => q.q.q|id;share;peer=v&peer=v|…,…
 func c10Przs[GE algebra.GroupElement[GE]](c *Ctx, name string, all []c10Sub, g algebra.FiniteGroup[GE], render func(GE) string) {
 	entries := make([]string, 0, len(all))
 	for _, sub := range all {
@@ -280,8 +527,16 @@ func c10Faults(c *Ctx, r *Rng, s *c10Session, desc string, stream uint64) {
 	if c.Thorough() {
 		reps = 4
 	}
+	big := n > 6 // the line carries all n(n-1) unicast messages: fewer, randomly chosen fault lines
+	if big {
+		reps = 1
+	}
 	for _, f := range c10Fields {
-		for _, mode := range modes {
+		ms := modes
+		if big {
+			ms = []string{"flip", modes[1+r.IntN(4)]}
+		}
+		for _, mode := range ms {
 			for rep := 0; rep < reps; rep++ {
 				from := s.sorted[r.IntN(n)]
 				to := from
@@ -327,7 +582,11 @@ func c10Faults(c *Ctx, r *Rng, s *c10Session, desc string, stream uint64) {
 	}
 	// the commitment key: the commitments of later rounds depend on it, so the line carries the
 	// messages of the faulty run itself; the model decides (with the BLAKE2b model) who fails to open.
-	for _, mode := range []string{"flip", "random", "zero"} {
+	ckModes := []string{"flip", "random", "zero"}
+	if big {
+		ckModes = ckModes[r.IntN(3):][:1]
+	}
+	for _, mode := range ckModes {
 		from := s.sorted[r.IntN(n)]
 		to := from
 		for to == from {
@@ -485,4 +744,88 @@ func c10DescSubset(got, full string) bool {
 		}
 	}
 	return true
+}
+
+// c10NewContexts: session.NewContext called directly with a common seed and pairwise seeds of many
+// lengths (the constructor is public API and copies/absorbs caller-supplied byte strings), both ends
+// of a pair passing equal bytes:
+//
+//	newctx <ids> <commonSeed> <i;j;seed,… (i<j)> <params> => id;sid;extract;peer=seed&…|…   (or err)
+func c10NewContexts(c *Ctx, r *Rng) {
+	cases := 24
+	if c.Thorough() {
+		cases = 300
+	}
+	for k := 0; k < cases; k++ {
+		n := 2 + r.IntN(11)
+		if k%6 == 5 {
+			n = 13 + r.IntN(12)
+		}
+		ids := c10BigIDs(r, n, r.IntN(7))
+		sorted := slices.Clone(ids)
+		slices.Sort(sorted)
+		short := 0 // 1: common seed too short, 2: one pairwise seed too short
+		if k%8 == 7 {
+			short = 1 + r.IntN(2)
+		}
+		common := make([]byte, c10Len(r, 32))
+		if short == 1 {
+			common = make([]byte, r.IntN(32))
+		}
+		_, _ = r.Read(common)
+		type pair struct{ a, b sharing.ID }
+		seeds := map[pair][]byte{}
+		var pdesc []string
+		shortPair := r.IntN(n * (n - 1) / 2)
+		for i, a := range sorted {
+			for _, b := range sorted[i+1:] {
+				l := c10Len(r, 32)
+				if short == 2 && len(seeds) == shortPair {
+					l = r.IntN(32)
+				}
+				sd := make([]byte, l)
+				_, _ = r.Read(sd)
+				seeds[pair{a, b}] = sd
+				pdesc = append(pdesc, fmt.Sprintf("%x;%x;%s", uint64(a), uint64(b), hexBytes(sd)))
+			}
+		}
+		prm := c10RandParams(r)
+		outs := make([]string, 0, n)
+		failed := false
+		for _, id := range sorted {
+			m := map[sharing.ID][]byte{}
+			for _, o := range sorted {
+				if o != id {
+					m[o] = slices.Clone(seeds[pair{min(id, o), max(id, o)}])
+				}
+			}
+			res := safely(func() string {
+				ctx, err := session.NewContext(id, c10Quorum(ids), slices.Clone(common), m)
+				if err != nil {
+					return "err"
+				}
+				return c10CtxOut(ctx, prm)
+			})
+			if res == "err" {
+				failed = true
+			}
+			outs = append(outs, res)
+		}
+		rhs := strings.Join(outs, "|")
+		if failed {
+			// with a too-short pairwise seed only its two ends fail
+			for i, o := range outs {
+				if o != "err" {
+					outs[i] = "ok"
+				}
+			}
+			rhs = strings.Join(outs, "|")
+		}
+		if short != 0 {
+			c.Count("newctx.short")
+		} else {
+			c.Count(fmt.Sprintf("newctx.n%d", n))
+		}
+		c.Emit(fmt.Sprintf("newctx %s %s %s %s", c10IDs(ids, ","), hexBytes(common), joinComma(pdesc), prm.String()), rhs)
+	}
 }
